@@ -80,4 +80,25 @@ pub fn run(ctx: &Ctx) {
         for (name, t) in [("then-non-hex", format!("0x{run}zz")), ("then-odd-digit", format!("{run}5")), ("then-non-hex-then-valid", format!("0x{run}g{run}")), ("newlines-then-non-hex", format!("{}\nxx", run.as_bytes().chunks(64).map(|c| std::str::from_utf8(c).unwrap()).collect::<Vec<_>>().join("\n")))] { bad.push((format!("long-valid-run-{name}"), t.into_bytes())); } }
     bad.push(("invalid-utf8".into(), vec![0x30, 0x78, 0xff, 0xfe])); bad.push(("nul".into(), b"0x00\x0000".to_vec())); bad.push(("empty".into(), vec![])); bad.push(("only-0x".into(), b"0x".to_vec())); bad.push(("only-ws".into(), b" \n".to_vec())); bad.push(("x0".into(), b"x0aa".to_vec())); bad.push(("0x-twice".into(), b"0x0xaa".to_vec())); bad.push(("split-prefix".into(), b"0 xaa".to_vec()));
     ctx.sweep("decode-malformed", "odd digit counts 1..31, 9 non-hex insertions at every index, invalid UTF-8, NUL, empty, doubled and split prefixes", bad.len() as u64, |i| { let (s, t) = &bad[i as usize]; check_decode(ctx, "decode-malformed", i, s, t, i % 4 == 0); });
+    // "ignores whitespace ANYWHERE": whatever separator the tool ignores in a small input it must ignore at every offset of a
+    // large one - in particular where a block-wise reader's buffers end (multi-byte separators straddle the boundary). The
+    // small input decides per separator whether the tool counts it as whitespace; the large inputs must agree with it.
+    let seps: Vec<(&str, &str)> = vec![("space", " "), ("line-feed", "\n"), ("cr-lf", "\r\n"), ("tab", "\t"), ("nbsp", "\u{a0}"), ("em-space", "\u{2003}"), ("ideographic-space", "\u{3000}"), ("line-separator", "\u{2028}"), ("vertical-tab", "\u{b}")];
+    let ignored: Vec<bool> = seps.iter().map(|(_, w)| { let r = Cmd::new(&["hex", "decode"]).stdin(format!("0xab{w}cd").as_bytes()).run(Build::Release); r.ok() && r.stdout == [0xab, 0xcd] }).collect();
+    let offs: Vec<(u32, i64)> = (12..=17u32).flat_map(|k| (-3..=3i64).map(move |d| (k, d))).collect();
+    ctx.sweep("separator-at-every-block-boundary", "9 separators (ASCII and multi-byte Unicode) x byte offsets 2^k - 3 .. 2^k + 3 for k = 12..=17 of a large hex text, from a file: a separator the tool ignores in a small input is ignored there too, with the same bytes", (seps.len() * offs.len()) as u64, |i| {
+        let (name, w) = seps[i as usize / offs.len()]; let (k, d) = offs[i as usize % offs.len()];
+        if !ignored[i as usize / offs.len()] { ctx.eval(format!("separator={name}:not-ignored-by-this-tool")); return; }
+        let at = ((1i64 << k) + d) as usize; let total = at + 4096 + (at % 2); // digits after the prefix; `at` counts bytes of the text including 0x
+        let digits: String = (0..total).map(|x| char::from_digit(((x * 5 + 1) % 16) as u32, 16).unwrap()).collect();
+        let digits = if digits.len() % 2 == 1 { format!("{digits}0") } else { digits };
+        let body = at.saturating_sub(2).min(digits.len()); let text = format!("0x{}{w}{}", &digits[..body], &digits[body..]);
+        let want = refmodel::eth::unhex(&digits).unwrap();
+        let f = scratch_file("separator-at-every-block-boundary", i, "hex", text.as_bytes()); let cmd = Cmd::new(&["hex", "decode", &f]); let r = cmd.run(Build::Release); rm(&f);
+        let shape = format!("separator={name},offset~2^{k}"); let replay = serde_json::json!({"sweep": "separator-at-every-block-boundary", "index": i, "entry": "CLI", "separator": name, "byte_offset": at, "text_len": text.len()});
+        ctx.sample("separator-at-every-block-boundary", || replay.clone());
+        if r.crashed() { ctx.eval(format!("{shape}:{}", r.crash_kind())); ctx.panic_violation(format!("{P}:decode:{shape}:{}", r.crash_kind()), r.describe(), replay); return; }
+        ctx.eval(format!("{shape}:{}", if r.ok() { "decoded" } else { "refused" }));
+        if !r.ok() || r.stdout != want { ctx.violation(format!("{P}:decode:separator={name}:not-ignored-at-a-large-offset"), format!("the separator is ignored in a small input but at byte offset {at} of a {}-byte text the tool gave {:?} with {} bytes of output", text.len(), r.status, r.stdout.len()), replay) }
+    });
 }
